@@ -790,9 +790,33 @@ def gen_external(g):
     return ("semi",)
 
 
+def same_tag_twice(g):
+    """two function definitions whose bodies define the SAME tag with different
+    bodies (sibling scopes, same nesting depth): two different types"""
+    c = g.c
+    void_fn = lambda name, items: ("fdef", [("t", "void")], ("d", name, [("fn", ("proto", [("param", [("t", "void")], ("d", None, [], None, None, None))], False))], None, None, None), None, ("block", items))  # noqa: E731
+    if c.chance(0.5):
+        a = gen_struct(g, 0)
+        b = gen_struct(g, 0)
+        tag = a[2] or g.fresh("N")
+        a = (a[0], a[1], tag, a[3])
+        b = (b[0], a[1], tag, b[3] if b[3] != a[3] else b[3] + [("decl", [("t", "char")], [("d", g.fresh("m"), [], None, None, None)])])
+    else:
+        tag = g.fresh("E")
+        a = ("enum", tag, [(g.fresh("K"), None)], False)
+        b = ("enum", tag, [(g.fresh("K"), ("const", "2", "int")), (g.fresh("K"), None)], True)
+    out = []
+    for spec in (a, b):
+        out.append(void_fn(g.fresh("f"), [("decl", [spec], [("d", g.fresh("v"), [], None, None, None)])]))
+    return out
+
+
 def gen_unit(g, n=None):
     n = n if n is not None else g.c.int(1, 4)
-    return ("tu", [gen_external(g) for _ in range(n)])
+    ext = [gen_external(g) for _ in range(n)]
+    if n > 1 and g.c.chance(0.1):
+        ext += same_tag_twice(g)
+    return ("tu", ext)
 
 
 def fix_fdef_param_names(x):
